@@ -82,10 +82,6 @@ Definition compare_str_semver (a b : bytes) : outcome comparison :=
 Definition valid_semver (v : semver) : bool := forallb is_some (sv_comps v).
 
 (* ------------------------------------------------------------------ decidable equality (parse diff against the hook) *)
-Definition optZ_eqb (a b : option Z) : bool :=
-  match a, b with Some x, Some y => Z.eqb x y | None, None => true | _, _ => false end.
-Fixpoint list_eqb {A} (e : A -> A -> bool) (a b : list A) : bool :=
-  match a, b with [], [] => true | x :: a', y :: b' => e x y && list_eqb e a' b' | _, _ => false end.
 Definition semver_eqb (v w : semver) : bool :=
   Bool.eqb (sv_leading_v v) (sv_leading_v w) && list_eqb optZ_eqb (sv_comps v) (sv_comps w) &&
   bytes_eqb (sv_build v) (sv_build w) && bytes_eqb (sv_original v) (sv_original w).
